@@ -31,12 +31,20 @@ def confirm(diff, demo):
         rc, out = sh(f"{PY} -m pytest -q -p no:cacheprovider", cwd=wt)
         res["tests_pass_with_change"] = rc == 0 and "77 passed" in out
         res["tests_tail"] = out.strip().splitlines()[-1] if out.strip() else ""
+        # a demonstration may locate the library relative to the working directory (run it at the root) or relative to its own
+        # file as <root>/out/demoN.py (run it there): try the root first, then out/
+        os.makedirs(os.path.join(wt, "out"), exist_ok=True)
         shutil.copy(demo, os.path.join(wt, "_demo.py"))
-        rc, out = sh(f"{PY} _demo.py", cwd=wt)
-        res["demo_fails_with_change"] = rc != 0
-        res["demo_with_change_tail"] = out.strip()[-300:]
+        shutil.copy(demo, os.path.join(wt, "out", "_demo.py"))
+        for loc in ("_demo.py", "out/_demo.py"):
+            rc, out = sh(f"{PY} {loc}", cwd=wt)
+            res["demo_location"] = loc
+            res["demo_fails_with_change"] = rc != 0
+            res["demo_with_change_tail"] = out.strip()[-300:]
+            if rc != 0:
+                break
         sh("git checkout -- .", cwd=wt)
-        rc, out = sh(f"{PY} _demo.py", cwd=wt)
+        rc, out = sh(f"{PY} {res['demo_location']}", cwd=wt)
         res["demo_passes_without_change"] = rc == 0
     finally:
         sh(f"git -C /repo worktree remove --force {wt}")
